@@ -149,7 +149,7 @@ def bad (msg : String) : J := .obj [("bad_request", .str msg)]
 
 /-- `chosen` = the harness reads derived facts only where and when a `read` step says so
 (`"read": [[path, nd?, miss?], ...]`). -/
-def runSteps (chosen : Bool) : T → List J → Option (List J)
+def runSteps (chosen : Bool) (react : React) (fuel : Nat) : T → List J → Option (List J)
   | _, [] => some []
   | t, s :: rest =>
     match s.get? "read" with
@@ -163,20 +163,24 @@ def runSteps (chosen : Bool) : T → List J → Option (List J)
         match r.2 with
         | some v => (r.1, acc.2 ++ [readToJ sp.1 v.1 v.2])
         | none => (r.1, acc.2)) (t, [])
-      let more ← runSteps chosen t' rest
+      let more ← runSteps chosen react fuel t' rest
       pure (.obj [("ok", .bool true), ("events", .arr []), ("reads", .arr reads), ("value", valueToJ t')] :: more)
     | none => do
       let recv ← (s.get? "recv").bind pathOfJ
       let notify := (s.getBool? "notify").getD true
       let op ← (s.get? "call").bind opOfJ
-      let out := step t recv notify op
+      let out0 := step t recv notify op
+      let out : Out := if notify && fuel > 0 then
+          let r := stepR react fuel t recv op
+          { tree := r.1, ok := out0.ok, events := r.2 }
+        else out0
       if chosen then
-        let more ← runSteps chosen out.tree rest
+        let more ← runSteps chosen react fuel out.tree rest
         pure (.obj [("ok", .bool out.ok), ("events", .arr (out.events.map eventToJ)),
                     ("reads", .arr []), ("value", valueToJ out.tree)] :: more)
       else
         let r := readEverything out.tree
-        let more ← runSteps chosen r.1 rest
+        let more ← runSteps chosen react fuel r.1 rest
         pure (.obj [("ok", .bool out.ok), ("events", .arr (out.events.map eventToJ)),
                     ("reads", .arr (r.2.map fun (p, nd, ms) => readToJ p nd ms)),
                     ("value", valueToJ out.tree)] :: more)
@@ -189,7 +193,17 @@ def handle (j : J) : J :=
       -- unless it chooses its reads, the harness reads every derived fact once before the first step
       let chosen := j.getStr? "reads" == some "chosen"
       let t0 := if chosen then t else (readEverything t).1
-      match runSteps chosen t0 steps with
+      let reacts : List (Nat × Path × Op) := match j.getArr? "react" with
+        | some rs => rs.filterMap (fun it => match it with
+          | .arr [.int i, p, c] => do
+            let p ← pathOfJ p
+            let op ← opOfJ c
+            pure (i.toNat, p, op)
+          | _ => none)
+        | none => []
+      let react : React := fun id => (reacts.find? (fun r => r.1 == id)).map (·.2)
+      let fuel := (j.getNat? "fuel").getD 0
+      match runSteps chosen react fuel t0 steps with
       | some outs => .obj [("steps", .arr outs)]
       | none => bad "run: step"
     | _, _ => bad "run"
